@@ -304,7 +304,7 @@ for t in ["u16", "i16", "u32", "i32", "u64", "i64", "u128", "i128", "usize", "bo
 C20M = "postcard/src/lib.rs::verif_c20"
 K("C20.K.recorder", C20M, "verif_c20::recorder", {"C20": "D"}, needs=(REF, PROBES), fns=["postcard::serialize_with_flavor", "postcard::ser::flavors::Flavor::try_extend (default)"],
   note="user flavours with and without a try_extend override receive exactly plain(v), in order; finalize once; every value of the probe enum")
-for s_, tier_ in [("slice", "quick"), ("hvec", "quick"), ("allocvec", "thorough")]:
+for s_, tier_ in [("slice", "quick"), ("hvec", "quick"), ("allocvec", "quick")]:
     K("C20.K.stack.crc_in_cobs_" + s_, C20M, "verif_c20::stack_crc_in_cobs_" + s_, {"C20": "D"}, needs=(REF, PROBES), tier=tier_,
       fns=["postcard::ser::flavors::crc::CrcModifier", "postcard::ser::flavors::Cobs", "postcard::serialize_with_flavor"],
       note="CrcModifier(Cobs(storage)) output == ref_cobs(plain ++ crc8) ++ [0] (bitwise CRC, reference COBS), every value of the probe")
